@@ -26,14 +26,29 @@ class SchedAbort(BaseException):
 
 
 class CLock:
-    """threading.Lock stand-in: parks before the operation, then performs it on a real lock."""
+    """threading.Lock stand-in: parks before the operation, then performs it on a real lock.
+    The scheduler is looked up through the factory at every call, so that a lock object that
+    outlives one run (e.g. one created when the module was loaded) is driven by the current run."""
 
-    def __init__(self, sched):
-        self.sched = sched
+    def __init__(self, ft):
+        self.ft = ft
         self.real = _thread.allocate_lock()
         self.owner = 0          # tid of the thread that acquired it, 0 = free (observation only)
         self.name = "?"
-        sched.locks.append(self)
+        ft.made.append(self)
+        if ft.sched is not None:
+            ft.sched.locks.append(self)
+
+    @property
+    def sched(self):
+        s = self.ft.sched
+        if s is None:
+            raise MachineryError("a controlled lock is used while no scheduler is installed")
+        return s
+
+    def reset(self):
+        self.real = _thread.allocate_lock()
+        self.owner = 0
 
     def acquire(self, blocking=True, timeout=-1):
         if not blocking or timeout != -1:
@@ -68,13 +83,16 @@ class CLock:
 class FakeThreading:
     """what the module under test sees as `threading`"""
 
-    def __init__(self, sched):
-        self._sched = sched
+    def __init__(self, sched=None):
+        self.sched = sched
+        self.made = []
 
     def Lock(self):
-        return CLock(self._sched)
+        return CLock(self)
 
     def __getattr__(self, name):
+        if name.startswith("__"):
+            raise AttributeError(name)
         raise MachineryError("the code under test uses threading.%s, which the controlled scheduler does not model" % name)
 
 
@@ -186,7 +204,8 @@ class Scheduler:
 
 
 class patched_threading:
-    """with patched_threading(module, sched): the module's `threading` is the controlled factory"""
+    """with patched_threading(module, sched): the module's `threading` is the controlled factory.
+    A module that was loaded under a factory (load_under_factory) keeps it; only its scheduler changes."""
 
     def __init__(self, module, sched):
         self.module, self.sched = module, sched
@@ -194,12 +213,76 @@ class patched_threading:
     def __enter__(self):
         self.saved = self.module.threading
         if isinstance(self.saved, FakeThreading):
-            raise MachineryError("module threading reference is already patched")
-        self.module.threading = FakeThreading(self.sched)
+            if self.saved.sched is not None:
+                raise MachineryError("module threading reference is already patched")
+            self.saved.sched = self.sched
+            self.own = False
+        else:
+            self.module.threading = FakeThreading(self.sched)
+            self.own = True
         return self
 
     def __exit__(self, *a):
-        self.module.threading = self.saved
+        if self.own:
+            self.module.threading = self.saved
+        else:
+            self.saved.sched = None
+
+
+def load_under_factory(path, name):
+    """A private copy of a module, executed from its source file while `import threading` yields the
+    controlled factory: locks the module creates when it is LOADED (module / class level) are controlled
+    locks too.  sys.modules is touched only for the duration of the import and restored."""
+    import importlib.util
+    ft = FakeThreading(None)
+    spec = importlib.util.spec_from_file_location(name, path)
+    m = importlib.util.module_from_spec(spec)
+    saved = sys.modules.get("threading")
+    sys.modules["threading"] = ft
+    try:
+        spec.loader.exec_module(m)
+    finally:
+        sys.modules["threading"] = saved
+    if getattr(m, "threading", None) is not ft:
+        raise MachineryError("private copy of %s does not refer to threading as a module" % path)
+    return m
+
+
+class StructureDiffers(Exception):
+    """the lock objects of the real RWLock are not the five distinct per-instance locks of the specification"""
+
+
+def lock_objects(rw):
+    """name -> underlying lock object of a real RWLock instance (MachineryError if the attributes are gone)"""
+    out = {}
+    for name, path in LOCK_ATTRS:
+        o = rw
+        for a in path:
+            if not hasattr(o, a):
+                raise MachineryError("RWLock has no attribute %s (structure changed; the model has to follow)" % a)
+            o = getattr(o, a)
+        out[name] = o
+    return out
+
+
+def structure_problems(module):
+    """Identity of the lock objects of two fresh, unpatched RWLock instances: the specification has five
+    distinct locks per RWLock and nothing shared between two RWLocks.  Returns a list of differences."""
+    a, b = lock_objects(module.RWLock()), lock_objects(module.RWLock())
+    probs = []
+    names = list(a)
+    for i, x in enumerate(names):
+        for y in names[i + 1:]:
+            if a[x] is a[y]:
+                probs.append("%s and %s of one RWLock are the same lock object" % (x, y))
+    for x in names:
+        for y in names:
+            if a[x] is b[y]:
+                probs.append("%s of one RWLock and %s of another RWLock are the same lock object" % (x, y))
+    for x in names:
+        if not (hasattr(a[x], "acquire") and hasattr(a[x], "release")):
+            probs.append("%s is not a lock" % x)
+    return probs
 
 
 # ----------------------------------------------------------------------------------------
@@ -222,19 +305,12 @@ class RealRW:
         self._patch.__enter__()
         try:
             self.rw = module.RWLock()
-            self.named = {}
-            for name, path in LOCK_ATTRS:
-                o = self.rw
-                for a in path:
-                    if not hasattr(o, a):
-                        raise MachineryError("RWLock has no attribute %s (structure changed; the model has to follow)" % a)
-                    o = getattr(o, a)
+            self.named = lock_objects(self.rw)
+            for name, o in self.named.items():
                 if not isinstance(o, CLock):
-                    raise MachineryError("RWLock.%s is not a lock made by threading.Lock()" % ".".join(path))
-                o.name = name
-                self.named[name] = o
-            if len(self.sched.locks) != 5 or len({id(x) for x in self.named.values()}) != 5:
-                raise MachineryError("RWLock creates %d locks, the model has 5" % len(self.sched.locks))
+                    raise StructureDiffers("RWLock.%s is not created by threading.Lock() when the RWLock is constructed" % name)
+                o.name = "=".join(n for n in LOCK_ORDER if self.named[n] is o)     # one name unless the object is shared
+                o.reset()
             self.rs, self.ws = self.rw._RWLock__read_switch, self.rw._RWLock__write_switch
             for tid in range(1, R + W + 1):
                 self.sched.start(tid, self._reader if tid <= R else self._writer)
@@ -465,16 +541,46 @@ def run_paths(graph, info, module, R, W, passes, paths, max_mismatch=3):
     return res
 
 
+def find_deadlock(module, R, W, passes, max_states=20000):
+    """Exhaustive search of the REAL lock's own lock-level state space (DFS with replay from the start) for a
+    state in which no thread can run although not all are done.  Returns (schedule of tids, projected state) or None."""
+    seen, stack = set(), [[]]
+    while stack:
+        sch = stack.pop()
+        real = RealRW(module, R, W, passes)
+        try:
+            for t in sch:
+                real.step(t)
+            proj = real.project()
+        finally:
+            real.close(abandon=True)
+        if proj in seen:
+            continue
+        seen.add(proj)
+        if len(seen) > max_states:
+            return None
+        runnable = proj[5]
+        if not runnable and any(th[0] != "done" for th in proj[3]):
+            return sch, proj
+        for t in sorted(runnable, reverse=True):
+            stack.append(sch + [t])
+    return None
+
+
 # ----------------------------------------------------------------------------------------
 # line / byte-code level pre-emption of one real thread
 
 class Preempter:
     """Runs `fn()` in a real thread under sys.settrace; the thread is stopped when the
-    `stop_at`-th (0-based) trace event ('line' or 'opcode') inside a frame of one of `codes`
-    whose `self` is `shared` is about to execute.  stop_at=None: only count the events."""
+    `stop_at`-th (0-based) trace event ('line' or 'opcode') is about to execute.  Events are counted
+    inside a frame of one of `codes` whose `self` is `shared` (the traced function) and, with
+    `deep`, in every frame below it whose code lives under the directory `deep` (the library:
+    everything the traced function calls).  stop_at=None: only count the events.
+    `frame_locals` are the locals of the traced function's frame at the stop."""
 
-    def __init__(self, fn, codes, shared, stop_at, opcode=False):
+    def __init__(self, fn, codes, shared, stop_at, opcode=False, deep=None):
         self.fn, self.codes, self.shared, self.stop_at, self.opcode = fn, set(codes), shared, stop_at, opcode
+        self.deep = deep
         self.count = 0
         self.at_stop = threading.Event()
         self.resume = threading.Event()
@@ -484,27 +590,38 @@ class Preempter:
         self.error = None
         self.stopped = False
         self.lineno = 0
+        self.where = ""
+        self.targets = []           # stack of active frames of the traced function
         self.thread = threading.Thread(target=self._main, daemon=True)
 
     def _global(self, frame, event, arg):
-        if event == "call" and frame.f_code in self.codes and frame.f_locals.get("self") is self.shared:
-            if self.opcode:
-                frame.f_trace_opcodes = True
-            return self._local
-        return None
+        if event != "call":
+            return None
+        code = frame.f_code
+        if code in self.codes and frame.f_locals.get("self") is self.shared:
+            self.targets.append(frame)
+        elif not (self.deep and self.targets and code.co_filename.startswith(self.deep)):
+            return None
+        if self.opcode:
+            frame.f_trace_opcodes = True
+        return self._local
 
     def _local(self, frame, event, arg):
         if event == ("opcode" if self.opcode else "line"):
             if self.stop_at is not None and self.count == self.stop_at and not self.stopped:
                 self.stopped = True
-                self.frame_locals = dict(frame.f_locals)
+                self.frame_locals = dict(self.targets[-1].f_locals) if self.targets else {}
                 self.lineno = frame.f_lineno
+                self.where = frame.f_code.co_name
                 self.at_stop.set()
                 if not self.resume.wait(TIMEOUT * 4):
                     raise SchedAbort()
                 sys.settrace(None)
+                self.targets = []
                 return None
             self.count += 1
+        elif event == "return" and self.targets and frame is self.targets[-1]:
+            self.targets.pop()
         return self._local
 
     def _main(self):
